@@ -1,13 +1,14 @@
 (* Props/C19.v — property theorems for C19 (one live instance per database directory), for the
    lock protocol of the REPAIRED sources: LockFile::acquire no longer truncates LOCK before it owns
    the lock (finding F19, fix e1df165) and the sub-directories are created only after the lock is held
-   (finding F27, fix 1e26351).  `current` is generated from the sources;
+   (finding F27, fix 1e26351), and a Tree dropped on a thread outside any tokio runtime closes the store
+   itself before drop() returns (finding F28).  `current` is generated from the sources;
    C19_model_is_the_repaired_code stops checking as soon as the sources change variant.  Proofs by `exact`. *)
 From Coq Require Import List Bool Arith.
 From SKV Require Import Misc.Lock Misc.LockSpec Misc.Lock_proofs Misc.LockInst.
 Import ListNotations.
 
-Theorem C19_model_is_the_repaired_code : current = fixed_dirs.
+Theorem C19_model_is_the_repaired_code : current = fixed_drop.
 Proof. reflexivity. Qed.
 
 (* never two holders, for every interleaving of any number of openers/processes *)
@@ -34,11 +35,11 @@ Proof. exact (data_inside_lock current). Qed.
 (* a failed open (refused or invalid options) leaves LOCK, the directories and the store files as they were, whatever
    options the refused opener asked for; and under every interleaving nobody but the lock owner changes anything *)
 Theorem C19_refused_open_touches_nothing : refused_open_touches_nothing_stmt current.
-Proof. exact refused_open_touches_nothing_fixed_dirs. Qed.
+Proof. exact (refused_open_touches_nothing_gen current eq_refl eq_refl). Qed.
 Theorem C19_no_foreign_modification : no_foreign_modification_stmt current.
-Proof. exact no_foreign_modification_fixed_dirs. Qed.
+Proof. exact (no_foreign_modification_all current eq_refl eq_refl). Qed.
 Theorem C19_refused_open_same_layout_touches_nothing : refused_open_same_layout_touches_nothing_stmt current.
-Proof. exact refused_open_same_layout_touches_nothing_fixed_dirs. Qed.
+Proof. exact (refused_open_same_layout_touches_nothing_gen current eq_refl). Qed.
 Theorem C19_refused_open_outside_known : refused_open_outside_known_stmt current.
 Proof. exact (refused_open_outside_known current). Qed.
 
@@ -60,10 +61,37 @@ Theorem C19_pinned_refused_open_touches_nothing_fails :
   ~ refused_open_touches_nothing_stmt pinned /\ ~ refused_open_same_layout_touches_nothing_stmt pinned.
 Proof. exact refused_open_touches_nothing_fails_pinned. Qed.
 
-(* a Tree dropped on a thread outside any tokio runtime keeps the lock until that runtime is shut
-   down (class drop_outside_runtime_keeps_lock) *)
-Theorem C19_detached_drop_reopens_refuted : ~ detached_drop_reopens_stmt current.
-Proof. exact (detached_drop_reopens_refuted current). Qed.
+(* a Tree dropped on a thread outside any tokio runtime: when drop() has returned the store is closed, the
+   opener gone and the lock free (release logged after the shutdown side effects), and the next open succeeds —
+   without waiting for any runtime to be shut down; the state "dropped, kept alive by the background tasks" is
+   unreachable under every interleaving, so the end of a runtime changes nothing *)
+Theorem C19_detached_drop_reopens : detached_drop_reopens_stmt current.
+Proof. exact (detached_drop_reopens current eq_refl). Qed.
+Theorem C19_detached_drop_releases : detached_drop_releases_stmt current.
+Proof. exact (detached_drop_releases current eq_refl). Qed.
+Theorem C19_never_detached : never_detached_stmt current.
+Proof. exact (never_detached current eq_refl). Qed.
+Theorem C19_runtime_gone_changes_nothing : runtime_gone_changes_nothing_stmt current.
+Proof. exact (runtime_gone_changes_nothing current eq_refl). Qed.
+
+(* regression record of F28 (class drop_outside_runtime_keeps_lock): the code before the repair kept the lock
+   until the runtime of the dropped Tree was shut down — the statement fails in both its forms, for fixed_dirs
+   and for every variant without the repair; the concrete witness; what held instead *)
+Theorem C19_detached_drop_reopens_refuted :
+  ~ detached_drop_reopens_stmt fixed_dirs /\ ~ detached_drop_reopens_old_stmt fixed_dirs.
+Proof. exact detached_drop_reopens_fails_fixed_dirs. Qed.
+Theorem C19_detached_drop_reopens_refuted_without_repair :
+  forall v, detached_drop_closes v = false -> ~ detached_drop_reopens_stmt v.
+Proof. exact detached_drop_reopens_refuted. Qed.
+Theorem C19_detached_drop_witness_before_repair :
+  let s := run fixed_dirs wit_ops s0 in
+  let s1 := run fixed_dirs (drop_detached_ops 1) s in
+  let s2 := run fixed_dirs (open_ops 2 0 plain) s1 in
+  let s3 := run fixed_dirs (open_ops 2 0 plain) (run fixed_dirs [ORuntimeGone 1] s2) in
+  is_live s 1 = true /\ pc_of s1 1 = Some PDetached /\ st_flock s1 = Some 1 /\
+  st_op s2 2 = None /\ last (st_log s2) (EvGone 0) = EvRefused 2 /\ st_fs s2 = st_fs s /\
+  is_live s3 2 = true /\ st_flock s3 = Some 2.
+Proof. exact detached_drop_witness_fixed_dirs. Qed.
 
 (* non-vacuity *)
 Example C19_release_reopens_example :
@@ -73,6 +101,14 @@ Example C19_release_reopens_example :
     is_live (run current (open_ops 2 8 plain) (run current rel s)) 2)
     (releases 1 7) = true.
 Proof. vm_compute. reflexivity. Qed.
+Example C19_detached_drop_reopens_example :
+  let s := run current wit_ops s0 in
+  let s1 := run current (drop_detached_ops 1) s in
+  let s2 := run current (open_ops 2 0 plain) s1 in
+  is_live s 1 = true /\ pc_of s1 1 = None /\ st_flock s1 = None /\
+  is_live s2 2 = true /\ st_flock s2 = Some 2 /\
+  st_log s1 = st_log s ++ [EvData 1 KShutdown; EvRelease 1; EvGone 1].
+Proof. exact detached_drop_witness_fixed_drop. Qed.
 Example C19_held_open_refused_example :
   let s := run current (open_ops 1 7 plain ++ open_ops 2 8 plain) s0 in
   is_live s 1 = true /\ st_op s 2 = None /\ st_flock s = Some 1 /\
